@@ -17,18 +17,18 @@ import (
 
 func c05Drivers() []concParams {
 	return []concParams{
-		{Name: "program-order", Cfg: "default/bytewise", Clients: [][]string{{"put:a", "put:b"}, {"get:b", "get:a"}}, QB: 3, TB: 4},
-		{Name: "batch-atomic", Cfg: "default/bytewise", Pre: []string{"put:a", "put:b"}, Clients: [][]string{{"w:+a,+b"}, {"snapget:a,b"}, {"iterscan"}}, TB: 3},
+		{Name: "program-order", Cfg: "roomy/bytewise", Clients: [][]string{{"put:a", "put:b"}, {"get:b", "get:a"}}, QB: 3, TB: 4},
+		{Name: "batch-atomic", Cfg: "roomy/bytewise", Pre: []string{"put:a", "put:b"}, Clients: [][]string{{"w:+a,+b"}, {"snapget:a,b"}, {"iterscan"}}, QB: 3, TB: 4},
 		{Name: "flush-vs-readers", Cfg: "flushy/bytewise", Clients: [][]string{{"put:a", "put:a"}, {"get:a"}, {"snapget:a"}}},
 		{Name: "flush-vs-iter", Cfg: "flushy/bytewise", Pre: []string{"put:b"}, Clients: [][]string{{"put:a", "put:a"}, {"iterscan"}}},
-		{Name: "two-writers-merge", Cfg: "default/bytewise", Clients: [][]string{{"put:a", "put:b"}, {"put:b", "put:a"}, {"get:a", "get:b"}}, TB: 3},
+		{Name: "two-writers-merge", Cfg: "roomy/bytewise", Clients: [][]string{{"put:a", "put:b"}, {"put:b", "put:a"}, {"get:a", "get:b"}}, QB: 2, TB: 4},
 		{Name: "transaction-vs-reader", Cfg: "bigbatch/bytewise", Pre: []string{"put:a"}, Clients: [][]string{{"tr:+a,+b"}, {"get:a", "get:b"}}},
 		// a snapshot taken while a transaction commit is in flight is one cut: reading the same key
 		// again after the commit finished gives the same answer
 		{Name: "transaction-vs-snapshot", Cfg: "bigbatch/bytewise", Pre: []string{"put:a", "put:b"}, Clients: [][]string{{"tr:+a,+b"}, {"snapget:a,b,a"}}, QB: 2, TB: 3},
 		{Name: "transaction-vs-iter", Cfg: "bigbatch/bytewise", Pre: []string{"put:a"}, Clients: [][]string{{"tr:+a,+b"}, {"iterscan"}, {"get:b", "get:a"}}, QB: 1, TB: 3},
-		{Name: "compact-vs-rw", Cfg: "flushy/bytewise", Pre: []string{"put:a", "put:b", "q"}, Clients: [][]string{{"put:a"}, {"cr"}, {"get:a", "get:b"}}, QB: 1, TB: 2},
-		{Name: "bigbatch-vs-reader", Cfg: "bigbatch/bytewise", Pre: []string{"put:a", "put:b"}, Clients: [][]string{{"w:+a,+b,-a,+a"}, {"snapget:a,b"}}, QB: 1, TB: 2},
+		{Name: "compact-vs-rw", Cfg: "flushy/bytewise", Pre: []string{"put:a", "put:b", "q"}, Clients: [][]string{{"put:a"}, {"cr"}, {"get:a", "get:b"}}, QB: 2, TB: 3},
+		{Name: "bigbatch-vs-reader", Cfg: "bigbatch/bytewise", Pre: []string{"put:a", "put:b"}, Clients: [][]string{{"w:+a,+b,-a,+a"}, {"snapget:a,b"}}, QB: 2, TB: 3},
 	}
 }
 
@@ -38,6 +38,23 @@ func runConcChecks(c *explore.Ctx, id string, drivers []concParams, bound int, p
 	per := map[string]any{}
 	exh := true
 	hists := 0
+	// every driver is searched a second time from another base schedule (newest goroutine first
+	// when the running one blocks), one bound lower: deviations are counted from the base, so
+	// a schedule far from one base can be close to the other
+	n := len(drivers)
+	for i := 0; i < n; i++ {
+		d := drivers[i]
+		d.Name += "@rev"
+		d.Rev = true
+		if d.QB == 0 {
+			d.QB = bound
+		}
+		if d.TB == 0 {
+			d.TB = bound
+		}
+		d.QB, d.TB = max(1, d.QB-1), max(1, d.TB-1)
+		drivers = append(drivers, d)
+	}
 	for _, d := range drivers {
 		if !cfgSelected(d.Name) {
 			continue
